@@ -33,6 +33,7 @@ fn parse_conn(s: &str) -> Option<ConnScript> {
 pub fn parse_net_args(toks: &[&str]) -> Option<Script> {
     let sc = toks.first()?;
     let mut script = Script::default();
+    let mut durations: Option<[Option<std::time::Duration>; 3]> = None;
     if *sc != "_" {
         for c in sc.split('/') {
             script.conns.push(parse_conn(c)?);
@@ -42,11 +43,31 @@ pub fn parse_net_args(toks: &[&str]) -> Option<Script> {
         if let Some(f) = t.strip_prefix("f=") {
             script.send_faults = f.chars().map(|c| c == '1').collect();
         } else if t.starts_with("bz=") {
+        } else if let Some(d) = t.strip_prefix("td=") {
+            // `td=<read>,<write>,<connect>`, each `-` or `<secs>:<nanos>`: durations for `timeout()`
+            let parts: Vec<&str> = d.split(',').collect();
+            if parts.len() != 3 {
+                return None;
+            }
+            let mut ds = [None; 3];
+            for (i, p) in parts.iter().enumerate() {
+                if *p != "-" {
+                    let (a, b) = p.split_once(':')?;
+                    ds[i] = Some(std::time::Duration::new(a.parse().ok()?, b.parse().ok()?));
+                }
+            }
+            durations = Some(ds);
         } else {
             return None;
         }
     }
+    DURATIONS.with(|c| c.set(durations));
     Some(script)
+}
+
+thread_local! {
+    /// (read, write, connect) of the case line being run (`td=` option); None = one second each
+    static DURATIONS: std::cell::Cell<Option<[Option<std::time::Duration>; 3]>> = const { std::cell::Cell::new(None) };
 }
 
 pub fn show_event(e: &Event) -> String {
@@ -93,8 +114,11 @@ pub fn show_event(e: &Event) -> String {
 }
 
 pub fn timeout(retries: usize) -> Option<TimeoutSettings> {
-    // durations are irrelevant under the scripted transport but must be valid
-    Some(TimeoutSettings::new(Some(std::time::Duration::from_secs(1)), Some(std::time::Duration::from_secs(1)), Some(std::time::Duration::from_secs(1)), retries).unwrap())
+    // durations are irrelevant to the scripted transport itself (no clock) but reach every computation the code makes
+    // with them; a case line may set them (`td=`), they must be valid
+    let one = Some(std::time::Duration::from_secs(1));
+    let [r, w, c] = DURATIONS.with(|d| d.get()).unwrap_or([one, one, one]);
+    Some(TimeoutSettings::new(r, w, c, retries).unwrap())
 }
 
 /// (peak live bytes, largest single request) of the last `run_q` on this thread
